@@ -356,7 +356,7 @@ class C04(Prop):
         "two-valued, corners, off-by-one), svgraw (byte-for-byte) over extreme palettes / default colours, roffo / roffcolor, rnd / rnc / rne / rnr (extreme styles x the whole flag grid), "
         "pc default; strings of ~64 KiB through c02 / sb / ss / wx / drv / strm / git / ls / roffo / svgraw / pc.  "
         "non-trivial = distinct case line whose byte-string fields hold ESC, a control, DEL or a byte >= 0x80 (for the token kinds rnd.. / lossy: every distinct line)")
-    trusted = ["cansi 2.2.1, roff 0.2.1, html-escape: transcribed in the models, tied by these runs; unicode-width: oracle (svgraw), not compared",
+    trusted = ["cansi 2.2.1, roff 0.2.1: translated from the registry source of the pinned versions and proved equal to the models (CansiFn, RoffCrateFn: theorems under C15); html-escape: transcribed in the model, tied by these runs; unicode-width: oracle (svgraw), not compared",
                "third-party utf8parse automaton: translated from the registry source of the version Cargo.lock pins (tools/gen_fn_utf8parse.py; source = checksummed archive = what cargo metadata "
                "reports for the harness crates) and proved equal to Model/Utf8parse.v; trusted: cargo builds the harness from that directory, char::from_u32_unchecked = identity (precondition proved: "
                "c04_translated_utf8parse_unchecked_char_is_scalar)",
